@@ -13,6 +13,7 @@
 (*   create / touch : f, v        delete : f              (no observation) *)
 (*   add / remove / update / scan : d, exc                                 *)
 (*   scanall / collect : exc      load : dirs, exc                         *)
+(*   scanbegin : all, d, exc      scanend : exc   (a scan in two steps)    *)
 (* exc is "none" or the name of the exception the call raised.             *)
 (* Every share operation carries obs, taken right after it:                *)
 (*   obs.dirs    shared directories                                        *)
@@ -20,6 +21,8 @@
 (*               (d holder, f file, own item.shared_directory, v mtime,    *)
 (*                q item.get_query_path() as codes)                        *)
 (*   obs.stats   get_stats() as [folders, files]                           *)
+(*   obs.told    counts of ScanCompleteEvent / SharedFoldersFiles emitted  *)
+(*               by a scan() that completed in this operation              *)
 (*   obs.queries [q, m, exc, res]: query string, max_results, and the      *)
 (*               items query() returned, as [f, own, v, q]                 *)
 (*                                                                         *)
@@ -49,6 +52,7 @@ TInit ==
   /\ disk = ToSet(Traces[tid][1].disk)
   /\ shared = {} /\ items = {} /\ tm = {} /\ dead = {}
   /\ fresh = FALSE /\ n = 0
+  /\ scanning = {} /\ scanAll = FALSE
 
 IsEv(e) == l <= Len(T) /\ Rec.ev = e
 Consume == l' = l + 1 /\ UNCHANGED tid
@@ -65,6 +69,12 @@ TRemove == IsEv("remove") /\ ((NoExc /\ Remove(Rec.d)) \/ Refused(Rec.d \notin s
 TUpdate == IsEv("update") /\ ((NoExc /\ Update(Rec.d)) \/ Refused(Rec.d \notin shared)) /\ Consume
 TScan   == IsEv("scan")   /\ ((NoExc /\ Scan(Rec.d))   \/ Refused(Rec.d \notin shared)) /\ Consume
 TScanAll == IsEv("scanall") /\ NoExc /\ ScanAll /\ Consume
+\* a scan in two steps: the harness holds the directory walk in the executor between them
+TScanBegin ==
+  /\ IsEv("scanbegin") /\ NoExc
+  /\ IF Rec.all THEN ScanBeginAll ELSE ScanBegin(Rec.d)
+  /\ Consume
+TScanEnd == IsEv("scanend") /\ NoExc /\ ScanEnd /\ Consume
 
 \* load_from_settings drops the directories that are not listed.  The statement does not say
 \* whether their items are forgotten (what the code does: Load) or handed to the innermost
@@ -88,6 +98,7 @@ Done ==
 Finished == l = Len(T) + 2 /\ UNCHANGED tvars
 
 TNext == TCreate \/ TDelete \/ TTouch \/ TAdd \/ TRemove \/ TUpdate \/ TScan \/ TScanAll
+         \/ TScanBegin \/ TScanEnd
          \/ TLoad \/ TCollect \/ Done \/ Finished
 
 TSpec == TInit /\ [][TNext]_tvars
@@ -118,7 +129,12 @@ IndexedOnceInnermostT ==
             /\ Chk("IndexedOnceInnermost", 3,
                    fresh => CompleteIndex(LItems, ToSet(O.dirs), disk) /\ \A i \in LItems : i.own = i.d)
 
-StatsEqualIndexT == HasObs => Chk("StatsEqualIndex", 1, O.stats = RefStats(LItems))
+\* get_stats() at every observation (also while a scan is in flight: the index is the one
+\* recorded at the same instant); and what a completed scan() told the listeners
+\* (ScanCompleteEvent) and the server (SharedFoldersFiles), recorded in obs.told
+StatsEqualIndexT ==
+  HasObs => /\ Chk("StatsEqualIndex", 1, O.stats = RefStats(LItems))
+            /\ Chk("StatsEqualIndex", 2, \A k \in 1..Len(O.told) : O.told[k] = RefStats(LItems))
 
 QueryExactT ==
   HasObs => \A k \in 1..Len(O.queries) :
